@@ -10,6 +10,9 @@ TRUST = ("Trusted: Go type checker and go/ssa (x/tools v0.29.0), CHA/VTA call gr
 
 # id -> (technique, level text, design ref)   -- only properties whose check exists are listed here
 CLAIMS = {
+    "C09": ("table-agreement analysis over go/ssa: per-variable fields discovered from constructor allocations and Var/Lit indexing, growth sites and ordering checked in every function that raises the variable count; dominance check of announce-before-use; constant-range check of status stores",
+            "Decides that every per-variable table grows (by the right amount, before the count is raised, with derived views rebuilt) whenever a new variable appears, that AppendClause announces a variable before using it, and that Unsat is absorbing. Necessary conditions of incremental solving; equivalence with solving from scratch is not decided.",
+            "DESIGN.md section 5, C09"),
     "C20": ("path-sensitive typestate over go/ssa for the result channel of every solver.Interface method (close-once, guarded sends, last-sent = returned); allocation-freshness analysis of sent slices; forwarder drain analysis",
             "Decides, on every path of every method implementing solver.Interface, that the result channel is closed exactly once when non-nil, never sent on while nil or after close, that the value returned is the last one sent, that sent slices are fresh, and that the MaxSAT forwarder drains its producer. Consumer-independent necessary conditions; validity and strict improvement of the results are not decided.",
             "DESIGN.md section 5, C20"),
